@@ -458,9 +458,13 @@ class HelicityAmplitudeBuilder:
 
         amplitude = self.config.spin_alignment.formulate_amplitude(self.reaction)
         spin_projections = collect_spin_projections(self.reaction)
-        intensity = PoolSum(sp.Abs(amplitude) ** 2, *spin_projections.items())
+        intensity = PoolSum(
+            sp.Abs(amplitude) ** 2,
+            # sorted: the iteration order of a set of Rationals depends on the hash seed
+            *((symbol, sorted(values)) for symbol, values in spin_projections.items()),
+        )
         # helicity combinations for which the reaction has no transition do not contribute
-        for symbol in _collect_amplitude_symbols(intensity):
+        for symbol in sorted(_collect_amplitude_symbols(intensity), key=str):
             self.__ingredients.amplitudes.setdefault(symbol, sp.S.Zero)
         return intensity
 
